@@ -50,6 +50,11 @@ CHECKS = {
    text="Scope.v proves for every history of (name,type) declarations: the scope lists them in entry order and its type is the product of their types; lookup finds a name iff it was declared; selection by type yields the first declaration with that name and type; each declaration's master is that first one and its decl-set is exactly the declarations sharing name and type, in entry order; homogeneous scopes report position = index. GenCmp shows that, in the current source, the overload table and the entry tables are searched with key comparators (the defect fixed in 12f6b4a is exactly a violation of that obligation). 550 (quick) / 8000 (thorough) histories are run on the real scopes and on the extracted model.",
    note="Trusted: Coq kernel, extractor, extraction, scope_driver, ASan. Modelled: decl_factory farms and the intrusive chain as lists.",
    ref="DESIGN.md §6 C07"),
+ "C02": dict(
+   technique="Coq proof over a model of the factories regenerated from the source (constructor-argument order of every one-statement factory body and the accessor forwarding of the interface header, both re-translated from the clang AST on every run) against a hand-written documentation table; complete data-driven sweep of every factory member function under ASan+UBSan compared with the extracted model",
+   text="Schema.doc_table documents, for all ~210 defined factory signatures, the accessor under which each operand must read back. Properties_C02.v proves on the regenerated tables: every factory of the current source has a row; every operand is documented under some accessor; wherever the translator could read the body (make(farm,args).with_type(t) / farm.make(args)) the slot each documented accessor resolves to (through the CURRENT header's forwarding) holds the documented operand, and therefore for EVERY argument tuple the built node reads back what the documentation says, absent Optionals reading absent. The sweep calls every factory with two fully distinguishable tuples, absent optionals, equal operands and seeded random tuples and compares every documented accessor (about 6000 values quick) and every modelled constructor slot with the implementation.",
+   note="Trusted: Coq kernel, the AST translator (fails closed: unreadable bodies are 'opaque' and covered by the sweep only), extraction, fsweep driver (generated), ASan/UBSan. Modelled by hand: the constructor slot order of the implementation classes that have their own constructor (Schema.ctor_slots), and the documentation table itself (the specification). Builders reached through members (param, add_member, declare_*) are covered by C07/C12.",
+   ref="DESIGN.md §6 C02"),
  "C16": dict(
    technique="Coq proof (finite-map lemmas by induction over binding sequences) + extracted-model/implementation correspondence with an independent oracle",
    text="Subst.v: an elementary substitution maps its parameter to its value and every other parameter to itself; a general substitution built from any sequence of bindings (rebinding included) yields, for every queried parameter, the latest binding or the parameter itself, and holds one binding per parameter. The driver builds elementary and general substitutions over the parameters of two mappings and queries parameters inside and outside the domain; results are compared with the extracted model and with the finite-map oracle.",
